@@ -471,6 +471,11 @@ func (gen *generator) irFuncDef(new *ir.Func, old *ast.FuncDef) error {
 	new.Metadata = md
 	// Basic blocks.
 	fgen := newFuncGen(gen, new)
+	for i, oldParam := range old.Header().Params().Params() {
+		if n, ok := oldParam.Name(); ok && isZeroID(localIdent(n)) {
+			fgen.zeroIDs = append(fgen.zeroIDs, new.Params[i])
+		}
+	}
 	oldBody := old.Body()
 	if err := fgen.resolveLocals(oldBody); err != nil {
 		return errors.WithStack(err)
